@@ -75,6 +75,15 @@ Definition model_w (H W len : nat) (vops : list vop) (custom : option shape) (ct
   | _ => WPanic
   end.
 
+(* every byte of a write in a call of its own *)
+Definition split_op (o : wop) : wop :=
+  match o with
+  | OWrite chunks => OWrite (map (fun b => [b]) (concat chunks))
+  | OWriteU chunks => OWriteU (map (fun b => [b]) (concat chunks))
+  | OWriteT chunks => OWriteT (map (fun b => [b]) (concat chunks))
+  | other => other
+  end.
+
 Definition window_of (H W : nat) (vops : list vop) (custom : option shape) : list nat :=
   match custom with
   | Some sh => shape_cells sh
@@ -82,80 +91,146 @@ Definition window_of (H W : nat) (vops : list vop) (custom : option shape) : lis
   end.
 
 (* ---------- CT ---------- *)
-Inductive tres := TPanic | TRes (lay_h lay_w : nat) (canvas : list N).
+(* nat_h: the height the implementation reports for the same text and width when the height is
+   unconstrained (a second call of View::layout), so that the predicate knows whether the constraint
+   of the case cut the text *)
+Inductive tres := TPanic | TRes (lay_h lay_w : nat) (nat_h : nat) (canvas : list N).
 
 Definition tres_eqb (a b : tres) : bool :=
   match a, b with
   | TPanic, TPanic => true
-  | TRes h w c, TRes h' w' c' => (h =? h') && (w =? w') && nlist_eqb c c'
+  | TRes h w n c, TRes h' w' n' c' => (h =? h') && (w =? w') && (n =? n') && nlist_eqb c c'
   | _, _ => false
   end.
 
 Definition model_t (H W : nat) (vops : list vop) (ctx : rctx) (cells : list ccell) (wraps : bool)
-           (minh minw maxh maxw : nat) : tres :=
+           (minh minw maxh maxw pr pc : nat) : tres :=
   let '(h, w) := text_layout ctx cells wraps minh minw maxh maxw in
-  match text_render ctx (apply_chain (of_size H W) vops) (init_canvas (H * W)) h w cells wraps with
-  | Ok st => TRes h w (enc_canvas (w_data st))
+  match text_render ctx (apply_chain (of_size H W) vops) (init_canvas (H * W)) pr pc h w cells wraps with
+  | Ok st => TRes h w (fst (text_size ctx cells wraps maxw)) (enc_canvas (w_data st))
   | _ => TPanic
   end.
 
-(* the kinds found in the window, in reading order, sentinels left out *)
+(* the cells found in the window, in reading order, sentinels left out: canvas index and cell *)
 Definition is_sentinel_kind (len : nat) (c : list N) : bool :=
   match c with
   | [_; _; _; tag; v] => (tag =? 0)%N && (SENT_BASE <=? v)%N && (v <? SENT_BASE + N.of_nat len)%N
   | _ => false
   end.
 
-Definition visible (len : nat) (cells : list nat) (canvas : list N) : list (list N) :=
-  map (fun c => skipn 3 c) (filter (fun c => negb (is_sentinel_kind len c)) (map (cell_at canvas) cells)).
+Definition visible (len : nat) (cells : list nat) (canvas : list N) : list (nat * list N) :=
+  filter (fun kc => negb (is_sentinel_kind len (snd kc))) (map (fun k => (k, cell_at canvas k)) cells).
 
 Definition nnlist_eqb := list_eqb nlist_eqb.
 
-Definition expected_kinds (ctx : rctx) (cells : list ccell) (wraps : bool) (w : nat) : list (list N) :=
-  let pr := printables ctx cells in
-  if wraps then map (fun c => enc_kind (c_kind c)) pr
-  else
-    map (fun c => enc_kind (c_kind c))
-        (keep_placed pr (nowrap_place w (map (fun c => classify ctx (c_kind c)) (expand ctx cells)) 0 0)).
+(* ----- reference semantics, written from the kinds and widths alone (no use of the model's
+   classify / layout_step / nowrap_place) ----- *)
+(* what gets written for a cell: a glyph without glyph support is its fallback characters *)
+Definition ref_expand (ctx : rctx) (cs : list ccell) : list ccell :=
+  flat_map (fun c => match c_kind c with
+                     | KGlyph _ _ _ fb => if has_glyphs ctx then [c] else map (fun ch => mkCell (c_face c) (KChar ch)) fb
+                     | _ => [c]
+                     end) cs.
+
+(* None: control character (newline 10, carriage return 13, tab 9); Some w: columns taken, 0 = not printable *)
+Definition ref_width (ctx : rctx) (c : ccell) : option nat :=
+  match c_kind c with
+  | KChar ch => if (ch =? 10)%N || (ch =? 13)%N || (ch =? 9)%N then None else Some (cw_lookup (cw_tab ctx) ch)
+  | KGlyph _ h w _ => Some (if (h =? 0)%nat then 0%nat else w)
+  | KImage _ h w => Some (if (h =? 0)%nat then 0%nat else w)
+  end.
+
+(* row by row, without wrapping, on lines of width w: which printable cells are kept.  A tab moves to
+   the next multiple of eight, but not beyond the right edge. *)
+Fixpoint ref_nowrap (ctx : rctx) (w : nat) (cs : list ccell) (col : nat) : list ccell :=
+  match cs with
+  | [] => []
+  | c :: t =>
+      match ref_width ctx c with
+      | None =>
+          match c_kind c with
+          | KChar 9 => ref_nowrap ctx w t (Nat.min w ((col / 8 + 1) * 8))
+          | _ => ref_nowrap ctx w t 0
+          end
+      | Some 0%nat => ref_nowrap ctx w t col
+      | Some cwid => if (col + cwid <=? w)%nat then c :: ref_nowrap ctx w t (col + cwid) else ref_nowrap ctx w t col
+      end
+  end.
+
+Definition ref_printable (ctx : rctx) (cs : list ccell) : list ccell :=
+  filter (fun c => match ref_width ctx c with Some (S _) => true | _ => false end) cs.
+
+Definition ref_has_cr (cs : list ccell) : bool :=
+  existsb (fun c => match c_kind c with KChar 13 => true | _ => false end) cs.
+
+Definition expected_cells (ctx : rctx) (cells : list ccell) (wraps : bool) (w : nat) : list ccell :=
+  let ex := ref_expand ctx cells in
+  if wraps then ref_printable ctx ex else ref_nowrap ctx w ex 0.
+
+Fixpoint has_transpose (ops : list vop) : bool :=
+  match ops with [] => false | OpT :: _ => true | _ :: t => has_transpose t end.
+
+(* a placed cell shows its kind; on views whose offsets grow in reading order (no transposition) also
+   its face laid over the face the sentinel had (nothing else touches a placed cell: the face fill of
+   tabs / newlines only covers cells the cursor skipped) *)
+Definition cell_matches (faces : bool) (vis : nat * list N) (c : ccell) : bool :=
+  nlist_eqb (skipn 3 (snd vis)) (enc_kind (c_kind c))
+  && (if faces then nlist_eqb (firstn 3 (snd vis)) (firstn 3 (enc_cell (mkCell (overlay (c_face (sent_cell (fst vis))) (c_face c)) (c_kind c))))
+      else true).
+
+Fixpoint all2 {A B} (f : A -> B -> bool) (x : list A) (y : list B) : bool :=
+  match x, y with
+  | [], [] => true
+  | a :: x', b :: y' => f a b && all2 f x' y'
+  | _, _ => false
+  end.
 
 Definition holds_t (H W : nat) (vops : list vop) (ctx : rctx) (cells : list ccell) (wraps : bool)
-           (minh minw maxh maxw : nat) (impl : tres) : bool :=
+           (minh minw maxh maxw pr pc : nat) (impl : tres) : bool :=
   match impl with
   | TPanic => false
-  | TRes h w canvas =>
+  | TRes h w nat_h canvas =>
       let w0 := win_chain (win_root H W) vops in
-      let sub := win_view w0 (py_resolve (w_h w0) (Rng 0 (Z.of_nat h))) (py_resolve (w_w w0) (Rng 0 (Z.of_nat w))) in
+      let sub := win_view w0 (py_resolve (w_h w0) (Rng (Z.of_nat pr) (Z.of_nat (pr + h))))
+                             (py_resolve (w_w w0) (Rng (Z.of_nat pc) (Z.of_nat (pc + w)))) in
       let cells_in := win_cells W sub in
       outside_intact (H * W) cells_in canvas
       && (minh <=? h) && (h <=? maxh) && (minw <=? w) && (w <=? maxw)
-      && (if (1 <=? maxw) && no_cr ctx cells && (h <? maxh)
-          then nnlist_eqb (visible (H * W) cells_in canvas) (expected_kinds ctx cells wraps w)
+      (* judged whenever the constraint did not cut the height (exact fit included) and the
+         reported rectangle lies inside the view *)
+      && (if (1 <=? maxw) && negb (ref_has_cr (ref_expand ctx cells)) && (nat_h <=? maxh)
+             && (pr + h <=? w_h w0) && (pc + w <=? w_w w0)
+          then all2 (cell_matches (negb (has_transpose vops))) (visible (H * W) cells_in canvas)
+                    (expected_cells ctx cells wraps w)
           else true)
   end.
 
 Inductive c09_case :=
 | CW (H W len : nat) (vops : list vop) (custom : option shape) (glyphs : bool) (cwt : list (N * nat))
-     (d : dfa) (sgr : list (list N * face * face)) (ops : list wop) (impl impl_merged : wres)
+     (d : dfa) (sgr : list (list N * face * face)) (ops : list wop) (impl impl_merged impl_bytes : wres)
 | CT (H W : nat) (vops : list vop) (glyphs : bool) (cwt : list (N * nat)) (cells : list ccell) (wraps : bool)
-     (minh minw maxh maxw : nat) (impl : tres).
+     (minh minw maxh maxw pr pc : nat) (impl : tres).
 
 Definition c09_check (c : c09_case) : bool * bool :=
   match c with
-  | CW H W len vops custom glyphs cwt d sgr ops impl merged =>
+  | CW H W len vops custom glyphs cwt d sgr ops impl merged bytewise =>
       let ctx := mkCtx glyphs cwt d sgr in
       ( wres_eqb (model_w H W len vops custom ctx ops) impl
-        && wres_eqb (model_w H W len vops custom ctx (map merge_op ops)) merged,
-        match impl, merged with
-        | WRes canvas _ _ _, WRes canvas' _ _ _ =>
+        && wres_eqb (model_w H W len vops custom ctx (map merge_op ops)) merged
+        && wres_eqb (model_w H W len vops custom ctx (map split_op ops)) bytewise,
+        (* three partitions of every write: as given, all bytes in one call, one byte per call *)
+        match impl, merged, bytewise with
+        | WRes canvas _ _ _, WRes canvas' _ _ _, WRes canvas'' _ _ _ =>
             outside_intact len (window_of H W vops custom) canvas
             && outside_intact len (window_of H W vops custom) canvas'
-            && nlist_eqb canvas canvas'
-        | _, _ => false
+            && outside_intact len (window_of H W vops custom) canvas''
+            && nlist_eqb canvas canvas' && nlist_eqb canvas canvas''
+        | _, _, _ => false
         end )
-  | CT H W vops glyphs cwt cells wraps minh minw maxh maxw impl =>
+  | CT H W vops glyphs cwt cells wraps minh minw maxh maxw pr pc impl =>
       let ctx := mkCtx glyphs cwt dfa0 [] in
-      ( tres_eqb (model_t H W vops ctx cells wraps minh minw maxh maxw) impl,
-        holds_t H W vops ctx cells wraps minh minw maxh maxw impl )
+      ( tres_eqb (model_t H W vops ctx cells wraps minh minw maxh maxw pr pc) impl,
+        holds_t H W vops ctx cells wraps minh minw maxh maxw pr pc impl )
   end.
 
 Definition c09_report := report c09_check.
